@@ -609,8 +609,11 @@ func (s *MemoryStore) Dequeue(req DequeueRequest) (DequeueResponse, error) {
 			now = s.nowFn()
 		}
 
-		s.requeueExpiredLeasesLocked(now)
+		// Prune before releasing expired leases, as the SQLite and Postgres
+		// stores do: retention never removes a message in the same call that
+		// takes it out of the leased state.
 		s.maybePruneLocked(now)
+		s.requeueExpiredLeasesLocked(now)
 
 		var out []Envelope
 		for _, id := range s.order {
